@@ -7,6 +7,7 @@ import (
 	"github.com/orda-io/orda/client/pkg/iface"
 	"github.com/orda-io/orda/client/pkg/model"
 	"github.com/orda-io/orda/client/pkg/operations"
+	"sync"
 )
 
 // WiredDatatype implements the datatype features related to the synchronization with Orda server
@@ -15,6 +16,9 @@ type WiredDatatype struct {
 	wire        iface.Wire
 	checkPoint  *model.CheckPoint
 	localBuffer []*model.Operation
+	// bufferLock guards localBuffer: the goroutines that issue operations append to it,
+	// the syncing goroutine reads it. It is never held while calling out.
+	bufferLock sync.Mutex
 }
 
 // NewWiredDatatype creates a new wiredDatatype
@@ -29,7 +33,9 @@ func NewWiredDatatype(w iface.Wire, t *TransactionDatatype) *WiredDatatype {
 
 // ResetWired resets the data related to WiredDatatype
 func (its *WiredDatatype) ResetWired() {
+	its.bufferLock.Lock()
 	its.localBuffer = make([]*model.Operation, 0, constants.OperationBufferSize)
+	its.bufferLock.Unlock()
 	its.opID.Seq = 0
 }
 
@@ -98,7 +104,8 @@ func (its *WiredDatatype) CreatePushPullPack() *model.PushPullPack {
 }
 
 func (its *WiredDatatype) getModelOperations(cseq uint64) []*model.Operation {
-
+	its.bufferLock.Lock()
+	defer its.bufferLock.Unlock()
 	if len(its.localBuffer) == 0 {
 		return []*model.Operation{}
 	}
@@ -217,7 +224,9 @@ func (its *WiredDatatype) updateStateOfDatatype(
 		model.StateOfDatatype_DUE_TO_SUBSCRIBE,
 		model.StateOfDatatype_DUE_TO_SUBSCRIBE_CREATE:
 		if its.state == model.StateOfDatatype_DUE_TO_SUBSCRIBE_CREATE && ppp.GetPushPullPackOption().HasSubscribeBit() {
+			its.bufferLock.Lock()
 			its.localBuffer = make([]*model.Operation, 0, constants.OperationBufferSize)
+			its.bufferLock.Unlock()
 			newOpID := model.NewOperationIDWithCUID(its.opID.CUID)
 			newOpID.Lamport = 1 // Because of SnapshotOperation
 			its.SetOpID(newOpID)
@@ -283,9 +292,12 @@ func (its *WiredDatatype) callHandlers(
 // DeliverTransaction delivers the transaction if needed
 func (its *WiredDatatype) DeliverTransaction(transaction []iface.Operation) {
 
+	// the whole unit becomes visible to a pack being built at once
+	its.bufferLock.Lock()
 	for _, op := range transaction {
 		its.localBuffer = append(its.localBuffer, op.ToModelOperation())
 	}
+	its.bufferLock.Unlock()
 	if its.wire == nil && its.ctx.Client.SyncType != model.SyncType_REALTIME {
 		return
 	}
